@@ -120,11 +120,14 @@ func worldC09(w *World) {
 	for i := range reqs {
 		c := &creq{id: fmt.Sprintf("r%02d", i), user: []string{"user0@example.com", "user1@example.com", "user2@example.com", "dev+oncall@example.com", "svc%2Bbatch@example.com", "accounts.example.com:1234%20x", ""}[t.Choice(7, "user")]}
 		c.forgedName = []string{"X-Inverting-Proxy-User-ID", "x-inverting-proxy-user-id", "X-INVERTING-PROXY-USER-ID", "X-Inverting-Proxy-User-Id"}[t.Choice(4, "forgedname")]
-		switch t.Pick("forged", 2, 3, 2) {
+		switch t.Pick("forged", 2, 3, 2, 2) {
 		case 1:
 			c.forgedUser = []string{"admin@evil.example"}
 		case 2:
 			c.forgedUser = []string{"admin@evil.example", c.user, ""}
+		case 3:
+			// the client's own identity first, a forged one after it
+			c.forgedUser = []string{c.user, "admin@evil.example"}
 		}
 		c.authName = []string{"Authorization", "authorization", "AUTHORIZATION"}[t.Choice(3, "authname")]
 		switch t.Pick("auth", 2, 3, 2) {
@@ -191,6 +194,31 @@ func worldC09(w *World) {
 	}
 	fp.Start()
 	rb := startRecordingBackend(w)
+	// a backend that is still starting up: the first websocket handshake for a token
+	// is answered 503, later ones are accepted
+	if t.Rare(1, 3, "rejectfirsthandshake") {
+		rejected := map[string]bool{}
+		var rmu sync.Mutex
+		rb.Pre = func(rw http.ResponseWriter, r *http.Request) bool {
+			if !websocket.IsWebSocketUpgrade(r) {
+				return false
+			}
+			tok := r.Header.Get("X-Token")
+			if tok == "" {
+				tok = r.URL.Query().Get("t")
+			}
+			rmu.Lock()
+			first := !rejected[tok]
+			rejected[tok] = true
+			rmu.Unlock()
+			if first {
+				w.K.Count("fault.backend_rejects_first_websocket_handshake")
+				http.Error(rw, "starting up", 503)
+				return true
+			}
+			return false
+		}
+	}
 	rb.OnHTTP = func(rw http.ResponseWriter, r *http.Request) {
 		// a little latency so that several users' requests overlap
 		time.Sleep(time.Duration(len(r.Header.Get("X-Token"))%3) * 10 * time.Millisecond)
